@@ -131,13 +131,12 @@ def ofImage (i : Image Q) : SExp := .list [ofOpt .str i.fileName, ofTransform i.
 def dump (g : Glyph Q) : SExp :=
   .list [.atom "glyph", ofOpt .str g.name, ofRat g.width, ofRat g.height, ofList ofNat g.unicodes,
          ofOpt .str g.note, ofImage g.image, ofList ofAnchor g.anchors, ofList ofGuideline g.guidelines,
-         .str g.lib, ofBool g.shallow.isSome, ofList ofEv g.draw,
-         if g.shallow.isSome then .atom "masked" else tagged "set" (g.ids.map .str)]
+         .str g.lib, ofBool g.shallow.isSome, ofList ofEv g.draw, tagged "set" (g.ids.map .str)]
 
 def errName : Err → String
   | .assertion => "AssertionError"
   | .noContour => "AttributeError"
-  | .nameError => "NameError"
+  | .defconError => "DefconError"
   | .indexError => "IndexError"
   | .penError => "PenError"
   | .typeError => "TypeError"
